@@ -201,9 +201,10 @@ def impl_project(case):
     try:
         os.makedirs(os.path.join(top, "features", "steps"))
         shown = 5 if case["outcome"] != "fail" else 6
-        lines = ["Feature: F", "  Scenario: S", "    Given a counter at 5", "    Then it shows %d" % shown]
+        lines = ["Feature: F", "  @bad", "  Scenario: S", "    Given a counter at 5", "    Then it shows %d" % shown]
         if case["outcome"] == "undefined":
             lines.append("    Then nobody defined this")
+        lines += ["  @good", "  Scenario: T", "    Given a counter at 7", "    Then it shows 7"]
         with open(os.path.join(top, "features", "f.feature"), "w") as fh:
             fh.write("\n".join(lines) + "\n")
         with open(os.path.join(top, "features", "steps", "steps.py"), "w") as fh:
@@ -219,8 +220,24 @@ def impl_project(case):
         shutil.rmtree(top, ignore_errors=True)
 
 
+PROJECT_TAGS = {   # --tags arguments -> (well-formed, selects the scenario tagged @bad)
+    "good": (["--tags=@good"], True, False), "bad": (["--tags=@bad"], True, True), "not-bad": (["--tags=not @bad"], True, False),
+    "either": (["--tags=@good or @bad"], True, True), "v1-not-bad": (["--tags=-@bad"], True, False),
+    "dangling": (["--tags=@bad and"], False, None), "open": (["--tags=(@good or @bad"], False, None),
+    "mixed": (["--tags=not @good or -@other"], False, None), "open-good": (["--tags=(@good"], False, None),
+}
+
+
 def oracle_project(case, obs):
     want_success = case["outcome"] == "pass" and case["env"] != "raise"
+    if case.get("tags"):
+        _args, well_formed, selects_bad = PROJECT_TAGS[case["tags"]]
+        if not well_formed:
+            if obs["exit"] == 0:
+                return [("project run with the malformed tag expression %r (nothing can be selected, the run is given up): exit code 0\n%s"
+                         % (_args, obs["tail"][-300:]), "false-green")]
+            return []
+        want_success = case["env"] != "raise" and (case["outcome"] == "pass" or not selects_bad)
     if want_success and obs["exit"] != 0:
         return [("project (environment.py: %s) whose steps all pass and where nothing raises: exit code %d\n%s" % (case["env"], obs["exit"], obs["tail"][-300:]),
                  "false-red")]
@@ -241,10 +258,13 @@ def suites(tier, seed):
     cases += wip_boundary_programs(rnd, 400 if tier == "thorough" else 90)
     projects = [{"env": e, "outcome": o, "args": a} for e in PROJECT_ENVS for o in ("pass", "fail", "undefined")
                 for a in ([], ["--stop"]) if not (a and o == "pass" and e in ("none", "plain"))]
+    projects += [{"env": e, "outcome": o, "tags": t, "args": PROJECT_TAGS[t][0]} for e in ("none", "re") for o in ("pass", "fail", "undefined")
+                 for t in PROJECT_TAGS if not (e == "re" and o == "pass")]
     proj = {"name": "projects", "cases": projects, "impl": impl_project, "oracle": oracle_project, "exhaustive": True,
             "nontrivial": lambda c, o: True,
             "bound": "%d projects on disk (environment.py: none / hooks / step matcher chosen at module level / type registered at "
-                     "module level / raising before_all) x outcome x --stop, run by python -m behave: exit code" % len(projects)}
+                     "module level / raising before_all) x outcome x --stop x --tags (well-formed selecting / de-selecting the failing scenario, "
+                     "malformed), run by python -m behave: exit code" % len(projects)}
     return [proj, {"name": "programs", "cases": cases, "impl": rc.impl_run, "oracle": oracle,
              "nontrivial": nontrivial, "histogram": rc.histogram, "shrink": rc.shrink_program,
              "bound": "%d seeded random programs + %d single-cause programs + @wip-boundary programs (one pending step, the wip tag "
